@@ -463,7 +463,8 @@ package modbus
 //@     forget
 //@     modifies batch
 //@     ghost r0 := len(result)
-//@     invariant -1 <= rangeindex && rangeindex < len(slotGroup.slots) && len(result) >= r0
+//@     invariant -1 <= rangeindex && rangeindex < len(slotGroup.slots) && len(result) >= r0 && len(slotGroup.slots) >= 1
+//@     invariant forall j in outer(rangeindex)+2..len(connectionGroup) :: groupOK(connectionGroup[j])
 //@     invariant forall k in 0..len(slotGroup.slots)-1 :: slotGroup.slots[k].address <= slotGroup.slots[k+1].address
 //@     invariant forall k in 0..len(slotGroup.slots) :: slotOK(slotGroup, k)
 //@     invariant isFirstSeen <==> rangeindex >= 0
@@ -471,4 +472,5 @@ package modbus
 //@     invariant rangeindex == -1 ==> len(batch.fields) == 0 && batch.Quantity == 0
 //@     invariant forall m in 0..len(batch.fields) :: fieldInOpen(batch.fields[m], address, unitID, slotGroup.isForCoils, firstAddress, batch.Quantity)
 //@     invariant rangeindex >= 0 ==> len(batch.fields) >= 1 && batch.Quantity >= 1
+//@     invariant rangeindex >= 0 ==> batch.fields[0].Address == firstAddress
 //@     invariant forall j in 0..len(result) :: batchOK(result[j])
